@@ -1,10 +1,13 @@
 package main
 
+import "golang.org/x/tools/go/ssa"
+
 func init() {
 	register(&PropInfo{
 		ID:    "C09",
 		Title: "Evaluation never crashes",
 		Rules: []string{
+			"R-RECDEPTH: the recursion of the data conversion (NativeToObject and its helpers) runs through a depth or cycle guard — it has none: known finding (data with a pointer cycle)",
 			"R-TOKPOS: who writes the lexer's position counters; token positions (evaluation errors carry the line of the construct)",
 			"R-EVALERR: the result of every recursive Eval is returned or tested with isError before use, and on the error side the error is what is returned (itself, wrapped, or as the single element of a result list)",
 			"R-ASSERT: every x.(T) without comma-ok in render-reachable code is dominated by a kind test of x, covered by the builtin dispatch-table invariant, an AST-field stored-type invariant, or established at all call sites",
@@ -13,6 +16,16 @@ func init() {
 		NotDecided:  "TODO",
 		Assumptions: trustedBase,
 		Run: func(m *Model, s *Sink) {
+			// the conversion of the caller's data recurses over the data: a pointer cycle never ends (a Go stack overflow is not a panic)
+			if nto := m.PkgFunc("object", "NativeToObject"); nto != nil {
+				var conv []*ssa.Function
+				for _, f := range m.reachableFns([]*ssa.Function{nto}) {
+					if shortPkg(fnPkgPath(f)) == "object" {
+						conv = append(conv, f)
+					}
+				}
+				m.RunRecDepth(s, "R-RECDEPTH", conv, 1, true)
+			}
 			m.RunTokPos(s, "R-TOKPOS")   // errors carry the line of the construct: the line counters are advanced by readChar only
 			m.RunEvalErr(s, "R-EVALERR") // a failing sub-expression fails the render: its error is returned, not replaced or left among the results
 			r := m.Roots()
